@@ -17,7 +17,7 @@ SEQS = (
     '', sgr('1'), sgr('31'), sgr('1;31'), sgr('22'), sgr('0'), sgr(''), sgr('38;5;214'), sgr('1;38;5;214'),
     sgr('4;38;5;200;1'), sgr('48;2;1;2;3;4'), sgr('39'), sgr('77'), sgr('38;5'), sgr('1') + sgr('31'),
     ESC + '[2J', ESC + '[1;2H', ESC + '[12', sgr('1;;31'), sgr('01;031'), sgr('58;2;1;2;3;21'), sgr('2;38;2;1;2'),
-    sgr(';1'), sgr('31;'), sgr('39;38;5;9'), sgr('0;1'), sgr('1;0'), ESC + '[3~', ESC + '[@', sgr('38;5;9;1') + ESC + '[}',
+    sgr(';1'), sgr('31;'), sgr('39;38;5;9'), sgr('0;1'), sgr('1;0'), ESC + '[3~', ESC + '[@', sgr('38;5;9;1') + ESC + '[}', sgr('0;1;4'), sgr('49;3;9'), sgr('38;5;46'),
 )
 TEXTS1 = ('', 'x', 'xy')
 TEXTS2 = ('', 'x', ESC, '[', 'm', '1', ';')
